@@ -256,6 +256,10 @@ class Program:
                     from .inline import inline_module, propagate_aliases
                     from .renames import restore_names
                     from .renames import conventional_param_names
+                    from .normalize import lift_closure_factories
+                    lifted = lift_closure_factories(mod.tree)
+                    if lifted:
+                        self.inlined.setdefault(rel, {})["closure_factories_lifted"] = lifted
                     restored = restore_names(rel, mod.tree)
                     conv = conventional_param_names(rel, mod.tree)
                     if conv:
